@@ -13,6 +13,7 @@ from sa.engine.report import Finding, RuleReport
 from sa.engine.treewalk import Extractor, Product
 from sa.rules.common import DT, X, implementers
 from sa.schemas import docx as s_docx
+from sa.schemas import html as s_html
 from sa.schemas import odf_misc as s_odf
 from sa.schemas import odt as s_odt
 from sa.schemas import pptx as s_pptx
@@ -20,7 +21,7 @@ from sa.schemas import pptx as s_pptx
 EXPLANATION = (
     "That every visible piece of a document appears once, in order and separated is a relation between content and output and "
     "is not decided as a whole. Four structural clauses are. (WALK) Each ElementTree walker that feeds the main text (docx body, "
-    "odt body, odp slide, odg drawing, ods cell, DrawingML text body, pptx slide shape tree) is abstracted to its traversal skeleton - axis steps "
+    "odt body, odp slide, odg drawing, ods cell, DrawingML text body, pptx slide shape tree, and the dict-tree walker of html) is abstracted to its traversal skeleton - axis steps "
     "(.iter / .findall / .find / child loops / project generator helpers), tag dispatch, recursion, reads of .text/.tail - and "
     "the product of this skeleton with the format's tree grammar (written down from ECMA-376 / ODF 1.2) is explored with visit "
     "counts saturating at 2: for every document the grammar generates, at any nesting depth, each visible character-data "
@@ -38,7 +39,7 @@ EXPLANATION = (
 )
 NOT_DECIDED = [
     "relative order of the pieces and whitespace separation (value level)",
-    "HTML / EPUB / MHTML walkers (dict tree and HTMLParser handlers; removal is C17)",
+    "EPUB chapter walker (HTMLParser handler state machine; removal is C17) - the HTML tree walker is decided, MHTML and MSG bodies reuse it",
     "PPTX shape classification by placeholder type (attribute values: which bucket a text box lands in)",
     "legacy binary formats (doc, ppt, xls), PDF, plain text, e-mail bodies",
     "that .text of a mixed-content node and the tails of its children are concatenated in document order",
@@ -64,6 +65,8 @@ WALKS = [
     ("pptx", X + "ms_modern/pptx_extractor.py", "_extract_text_from_paragraphs", "elem", s_pptx.txbody, frozenset(), "read_pptx"),
     ("pptx-slide", X + "ms_modern/pptx_extractor.py", "_process_slide_from_context", "root", s_pptx.slide, frozenset({"formulas", "images", "comments"}), "read_pptx"),
 ]
+WALKS.append(("html", X + "html_extractor.py", "_HtmlTextExtractor._process_node", "node", s_html.body_schema, frozenset({"tables", "<discarded>"}), "read_html"))
+DICT_NODES = {"html"}  # the HTML tree builder's nodes are dicts {"tag", "children", "text", "tail"}
 LOCAL_ROOT = {"pptx-slide"}  # the node is a local of the entry function (root = ctx.get_slide_root(..)), not a parameter
 OPAQUE = {"omml_to_latex"}  # consumes the whole subtree of its argument (decided separately: C19)
 
@@ -88,7 +91,7 @@ def minimal_deviations(devs):
     return clusters
 
 
-def run_walk(ctx: Ctx, rep: RuleReport, rule: str, label, rel, entry, param, schema_fn, skip, caller, marks=None, mark_tags=None, region=None, local_root=False):
+def run_walk(ctx: Ctx, rep: RuleReport, rule: str, label, rel, entry, param, schema_fn, skip, caller, marks=None, mark_tags=None, region=None, local_root=False, dict_nodes=False):
     fi = ctx.p.maybe_func(rel, entry)
     if fi is None:
         raise AnalysisError(f"{rule}: walker entry {rel}::{entry} vanished")
@@ -97,7 +100,7 @@ def run_walk(ctx: Ctx, rep: RuleReport, rule: str, label, rel, entry, param, sch
     root = ctx.p.maybe_func(rel, caller)
     if root is None or fi.key not in reachable_functions(ctx.p, [root]):
         raise AnalysisError(f"{rule}: {entry} is no longer reached from {caller} (the walker that feeds the text changed)")
-    ex = Extractor(ctx, opaque_subtree=OPAQUE, mark_tags=mark_tags or {})
+    ex = Extractor(ctx, opaque_subtree=OPAQUE, mark_tags=mark_tags or {}, dict_nodes=dict_nodes)
     pr = Product(ex, schema_fn(), marks_expected=marks or {}, skip_sinks=skip, region=region)
     devs, stats = pr.run(fi, param)
     rep.unit(fi.key)
@@ -125,7 +128,7 @@ def run_walk(ctx: Ctx, rep: RuleReport, rule: str, label, rel, entry, param, sch
 def rule_walk(ctx: Ctx) -> RuleReport:
     rep = RuleReport("C02-WALK", "every visible character-data position of the format grammar is read exactly once, every excluded one never")
     for (label, rel, entry, param, schema_fn, skip, caller) in WALKS:
-        run_walk(ctx, rep, "C02-WALK", label, rel, entry, param, schema_fn, skip, caller, local_root=label in LOCAL_ROOT)
+        run_walk(ctx, rep, "C02-WALK", label, rel, entry, param, schema_fn, skip, caller, local_root=label in LOCAL_ROOT, dict_nodes=label in DICT_NODES)
     return rep
 
 
@@ -340,8 +343,8 @@ def rule_sink(ctx: Ctx) -> RuleReport:
     # the functions that build the main text: everything the WALK entries traverse, plus the PPTX slide assembler
     scope: dict[str, tuple[FuncInfo, frozenset]] = {}
     for (label, rel, entry, param, schema_fn, skip, caller) in WALKS:
-        if label in LOCAL_ROOT:
-            continue  # the slide assembler is in EXTRA_SINK_FUNCS
+        if label in LOCAL_ROOT or label in DICT_NODES:
+            continue  # the slide assembler is in EXTRA_SINK_FUNCS; the HTML walker returns strings (no result fields)
         ex2 = Extractor(ctx, opaque_subtree=OPAQUE)
         fi = ctx.p.func(rel, entry)
         Product(ex2, schema_fn(), skip_sinks=skip).run(fi, param)
